@@ -24,7 +24,7 @@ InitState == JsonDeserialize(IOEnv.INIT_STATE)
 
 Now == st.clock.ts
 \* banks annotated with the prices the risk engine reads for them now (oracle accounts of the projected state)
-Px(banks) == WithPx(banks, IF Has(st, "oracles") THEN st.oracles ELSE <<>>, Now)
+Px(banks) == WithPxP(banks, IF Has(st, "oracles") THEN st.oracles ELSE <<>>, IF Has(st, "pools") THEN st.pools ELSE <<>>, Now)
 UserTok(a, bn) == st.accts[a].auth \o "." \o st.banks[bn].mint
 TokOf(s, t) == IF Has(s.tok, t) THEN s.tok[t].amount ELSE BZero
 SetTok(tok, t, amt) == [tok EXCEPT ![t] = [@ EXCEPT !.amount = amt]]
